@@ -20,6 +20,13 @@ type LockCase struct {
 	Setup Setup `json:"setup"`
 	Prep  []Op  `json:"prep"`
 	Ops   []Op  `json:"ops"`
+	// TightRemove (0: off; else 2 or 3): at the end, one workload is removed while other
+	// long-running requests occupy all but that many workers of calcium's non-blocking task pool.
+	// A remove of one workload runs two pooled tasks at a time (the call and its node), so with 2
+	// free workers the follow-up remap is refused, with 3 it is accepted; the lock order must hold
+	// either way.
+	TightRemove int `json:"tight_remove,omitempty"`
+	TightTarget int `json:"tight_target,omitempty"`
 }
 
 var c20Kinds = []string{"create", "create", "remove", "dissociate", "realloc", "replace", "control", "send", "setnode", "removenode", "removepod", "capacity", "noderesource", "podresource"}
@@ -87,6 +94,10 @@ func genC20(t *rapid.T) LockCase {
 	n := rapid.IntRange(1, 5).Draw(t, "nOps")
 	for i := 0; i < n; i++ {
 		c.Ops = append(c.Ops, genC20Op(t, c.Setup))
+	}
+	if vt.Chance(t, "tightRemove", 15) {
+		c.TightRemove = rapid.IntRange(2, 3).Draw(t, "freeWorkers")
+		c.TightTarget = rapid.IntRange(0, 5).Draw(t, "tightTarget")
 	}
 	return c
 }
@@ -178,6 +189,27 @@ func runC20(x *vt.Ctx, c LockCase) *vt.Finding {
 		}
 		if key != "" {
 			return vt.Failf("op="+op.Kind+":"+key, "op %d %s: %s (outcome %s)\n%s", i, jsonStr(op), msg, jsonStr(out), histStr(h))
+		}
+	}
+	if c.TightRemove > 0 && len(liveIDs(w)) > 0 {
+		occupied, release := w.OccupyPool(c.TightRemove)
+		defer release()
+		if occupied != w.Cfg.MaxConcurrency-c.TightRemove {
+			x.Label("tight-remove:pool-not-occupied")
+			return nil
+		}
+		op := Op{Kind: "remove", Targets: []int{c.TightTarget}, Force: true}
+		out := runOp(w, op)
+		release()
+		settle(w)
+		h := w.IC.History()
+		key, msg, _ := lockOrderViolation(h)
+		x.Label("tight-remove free=%d", c.TightRemove)
+		if !out.Closed {
+			return vt.Failf("op=remove:stream-not-closed tight-pool", "remove of one workload with %d free pool workers: result stream did not close (outcome %s)\n%s", c.TightRemove, jsonStr(out), histStr(h))
+		}
+		if key != "" {
+			return vt.Failf("op=remove:"+key+" tight-pool", "remove of one workload with %d free pool workers: %s (outcome %s)\n%s", c.TightRemove, msg, jsonStr(out), histStr(h))
 		}
 	}
 	return nil
